@@ -12,7 +12,11 @@ streams
           requests recorded through a recording subclass of the real Filenames.
   doc13 (extra_checks): generated LaTeX documents x split level -10..6 x filename templates x bad-chars settings
           x HTML5/XHTML themes, rendered by the real renderers into a temporary directory; oracle = the Spec
-          (driver) on the abstract tree of the generated document.
+          (driver) on the abstract tree of the generated document.  Labels and titles are also drawn from a pool that
+          collides with what the template itself produces (static names with/without extension, the first numbered
+          names, values equal after sanitising).  "The same on every run" is checked twice: a second run in this
+          process, and a sample of the documents (plus fixed standard documents) in fresh interpreter processes with
+          different PYTHONHASHSEED values.
 """
 import os, re, sys, json, shutil, tempfile, logging, random
 from framework import Case, Violation, run_driver
@@ -46,7 +50,8 @@ ASSUMPTIONS = ['no node carries a filenameoverride or splitlevel attribute (set 
 RULE = ('split: trees generated recursively from the seed (sections nested by level, paragraphs, inline nodes, footnotes, footnotes '
         'nested in footnotes, units inside footnotes; ~15% malformed: sections out of level order, several/no document-level roots, '
         'dying templates, split levels >= 100); non-trivial = spec defined and at least two files written; distinct = distinct '
-        'driver request line. doc13: non-trivial = at least two files written')
+        'driver request line. doc13: non-trivial = at least two files written; labels/titles partly drawn from names the template produces; '
+        'determinism also across interpreter processes with PYTHONHASHSEED 0..3 (quick) / 0..7 (thorough)')
 EXHAUSTIVE = {}
 CASE_TIMEOUT = 20
 
@@ -121,9 +126,29 @@ def parse_line(line):
     return gen, split, template, tops
 
 
+NUM_ALT = re.compile(r'([A-Za-z0-9_-]*)\$num(?:\((\d+)\))?')
+
+
+def collision_pool(template):
+    """labels/titles that collide with what the template itself produces: the static names (with and without extension),
+    the first numbered names of the `$num` alternatives, and values that become equal after the forbidden characters
+    are replaced"""
+    pool = []
+    flat = re.sub(r'\[[^\]]*\]?', ' ', template)
+    for w in flat.split():
+        if '$' not in w:
+            pool += [w, w + '.html']
+    for pre, width in NUM_ALT.findall(template):
+        for k in (1, 2, 3):
+            pool.append(pre + (('%%0%dd' % int(width)) % k if width else str(k)))
+    pool += ['index', 'col:1', 'col-1', 'col.1', 'col 1', 'col:2', 'col-2']
+    return [x for x in pool if x and re.match(r"^[A-Za-z0-9_:. -]+$", x)]
+
+
 class TreeGen:
-    def __init__(self, rng, malformed=False, noblank=False):
+    def __init__(self, rng, malformed=False, noblank=False, template=''):
         self.rng, self.tag, self.mark, self.malformed = rng, 0, 0, malformed
+        self.pool = [x for x in collision_pool(template) if ' ' not in x]     # one word per field in the line protocol
         self.ids = 0
         self.noblank = noblank      # no blank titles (with $title(n) a blank title hits defect D12 of the generator, C15)
 
@@ -160,7 +185,11 @@ class TreeGen:
             self.ids += 1
             f = rng.choice(['sec:%d', 'l%d', 'a.b%d', 'x/y%d', 'dup'])
             id_ = f % self.ids if '%d' in f else f
+            if rng.random() < 0.3:
+                id_ = rng.choice(self.pool)          # collides with a static name / a numbered name / another label
         title = rng.choice([None, '', 'Title%d' % self.tag, 'A:b/%d' % self.tag, 'Intro'])
+        if rng.random() < 0.15:
+            title = rng.choice(self.pool)
         if self.noblank and title == '':
             title = 'Blank'
         ref = rng.choice([None, '', '%d' % rng.randint(1, 9), '1.%d' % rng.randint(1, 9)])
@@ -233,7 +262,7 @@ def generate(ctx):
     for i in range(n):
         malformed = rng.random() < 0.15
         template = rng.choice(TEMPLATES)
-        tg = TreeGen(rng, malformed, '$title(' in template)
+        tg = TreeGen(rng, malformed, '$title(' in template, template)
         tops = tg.tops()
         split = rng.randint(-10, 6)
         gen = 'cnt'
@@ -575,13 +604,16 @@ def search(ctx, evaluate, corr_bad):
     cases = []
     for i in range(4000):
         template = rng.choice(TEMPLATES)
-        tg = TreeGen(rng, False, '$title(' in template)
+        tg = TreeGen(rng, False, '$title(' in template, template)
         cases.append(Case('split', make_line('cnt', rng.randint(-10, 6), template, tg.tops()), {'template': template}, 'search'))
     bad = [r for r in evaluate(cases) if not r.prop_ok]
     if bad:
         b = shrink(ctx, bad[0], evaluate)
         return Violation('implementation differs from the property oracle (found by search)', {'kind': 'failing-input', 'outcome': b.to_json()})
-    viol, _ = doc_checks(ctx, random.Random(ctx.seed + 104729), 150)
+    collected = []
+    viol, _ = doc_checks(ctx, random.Random(ctx.seed + 104729), 150, collect=collected)
+    if not viol:
+        viol, _ = xproc_checks(ctx, [e for e in collected if len(e['expected']) >= 2][:40])
     return viol[0] if viol else None
 
 
@@ -601,8 +633,9 @@ RENDERERS = [('HTML5', 'default'), ('XHTML', 'default'), ('HTML5', 'minimal'), (
 class DocGen:
     """a LaTeX document together with its abstract tree"""
 
-    def __init__(self, rng):
+    def __init__(self, rng, template=''):
         self.rng, self.tag, self.mark, self.nsec = rng, 0, 0, 0
+        self.pool = collision_pool(template)
 
     def newtag(self):
         self.tag += 1
@@ -659,12 +692,16 @@ class DocGen:
         k = self.nsec
         title = rng.choice(TITLE_FORMS)
         title = title % k if '%d' in title else title
+        if rng.random() < 0.12:
+            title = rng.choice(self.pool)            # a title that collides with a name the template produces anyway
         star = rng.random() < 0.1
         node = T(tag=self.newtag(), level=level, title=title, name=SECTION_CMDS[level])
         cmd = '\\%s%s{%s}' % (SECTION_CMDS[level], '*' if star else '', title)
         if rng.random() < 0.45:
             f = rng.choice(ID_FORMS)
             node.id = f % k if '%d' in f else f
+            if rng.random() < 0.25:
+                node.id = rng.choice(self.pool)      # a label that collides with a static / numbered name or another label
             cmd += '\\label{%s}' % node.id
         lines.append(cmd)
         self.body(node, lines)
@@ -802,7 +839,7 @@ def doc_corpus():
     return res
 
 
-def doc_checks(ctx, rng, n, with_corpus=False):
+def doc_checks(ctx, rng, n, with_corpus=False, collect=None):
     viol, stats = [], {'evaluations': 0, 'distinct_nontrivial': 0, 'samples': [], 'renderers': {}, 'split_levels': {}, 'files_per_doc': {}}
     if with_corpus:
         for fname, extra in doc_corpus():
@@ -814,10 +851,10 @@ def doc_checks(ctx, rng, n, with_corpus=False):
             return viol, stats
     docs = []
     for i in range(n):
-        dg = DocGen(rng)
+        template = rng.choice(DOC_TEMPLATES)
+        dg = DocGen(rng, template)
         src, root = dg.document()
         split = rng.randint(-10, 6) if rng.random() < 0.5 else rng.randint(-1, 4)
-        template = rng.choice(DOC_TEMPLATES)
         bad, sub = rng.choice(BAD_SETTINGS) if rng.random() < 0.5 else BAD_SETTINGS[0]
         renderer, theme = RENDERERS[i % len(RENDERERS)]
         docs.append((src, root, split, template, bad, sub, renderer, theme))
@@ -844,12 +881,95 @@ def doc_checks(ctx, rng, n, with_corpus=False):
         if len(stats['samples']) < 2:
             stats['samples'].append({'stream': 'doc13', 'split': split, 'template': template, 'renderer': renderer, 'units': len(expected),
                                      'tex': src[:300]})
+        if collect is not None:
+            collect.append(extra)
         msg = check_doc(extra)
         if msg:
             viol.append(Violation('doc13: ' + msg, {'kind': 'failing-input', 'extra': shrink_doc(extra), 'observed': msg}))
             if len(viol) >= 3:
                 break
     return viol, stats
+
+
+# ---------------------------------------------------------------- the same on every run: separate interpreter processes
+
+XPROC_STANDARD_TEX = r'''\documentclass{book}
+\begin{document}
+MK1
+\chapter{Alpha Beta}\label{ch:alpha}
+MK2
+\section{Inner One}
+MK3
+\section{Inner Two}\label{sec:two}
+MK4 \footnote{MK5}
+\chapter{Gamma}
+MK6
+\end{document}
+'''
+XPROC_TEMPLATES = ['index [$id, sect$num(4)]', 'index [$id, $title(2), file$num(3)]', '[$title, $id, s$num]', 'index toc [$ref-x, $id, n$num]']
+
+
+def worker():
+    """child process: render the documents given on stdin (JSON list of extras); print names and markers per file"""
+    import framework  # noqa: F401  (puts the repository on sys.path)
+    logging.disable(logging.CRITICAL)
+    extras = json.load(sys.stdin)
+    res = []
+    for e in extras:
+        try:
+            names, contents, _ = render_doc(e['tex'], e['renderer'], e['theme'], e['split'], e['template'], e['bad'], e['sub'])
+            res.append({'names': names, 'marks': {n: MARK.findall(c) for n, c in contents.items()}})
+        except Exception as ex:
+            res.append({'error': type(ex).__name__})
+    sys.stdout.write(json.dumps(res))
+
+
+def run_workers(extras, seeds):
+    """one fresh interpreter per hash seed (string hashing is randomised per process), all running the same documents"""
+    import subprocess
+    from framework import HARNESS, REPO
+    env0 = dict(os.environ, VERIF_REPO=REPO, PYTHONPATH=HARNESS + os.pathsep + os.environ.get('PYTHONPATH', ''), PYTHONDONTWRITEBYTECODE='1')
+    procs = []
+    payload = json.dumps([{k: e[k] for k in ('tex', 'renderer', 'theme', 'split', 'template', 'bad', 'sub')} for e in extras])
+    for sd in seeds:
+        pr = subprocess.Popen([sys.executable, '-c', 'import props.c13 as p; p.worker()'], env=dict(env0, PYTHONHASHSEED=str(sd)),
+                              stdin=subprocess.PIPE, stdout=subprocess.PIPE, stderr=subprocess.PIPE, text=True)
+        procs.append(pr)
+    outs = []
+    for pr in procs:          # started together, collected in turn
+        out, err = pr.communicate(payload, timeout=1800)
+        if pr.returncode != 0:
+            raise RuntimeError('doc13 worker failed: ' + err[-800:])
+        outs.append(json.loads(out))
+    return outs
+
+
+def xproc_compare(extra, results, seeds):
+    """'' when all runs agree, else a description"""
+    first = results[0]
+    for sd, r in zip(seeds[1:], results[1:]):
+        if r != first:
+            return ('runs in separate interpreter processes differ (PYTHONHASHSEED=%s: %r; PYTHONHASHSEED=%s: %r)'
+                    % (seeds[0], first.get('names', first), sd, r.get('names', r)))
+    return ''
+
+
+def xproc_checks(ctx, extras):
+    """the determinism clause across processes: the same documents in fresh interpreters with different hash seeds"""
+    seeds = [0, 1, 2, 3] if ctx.tier == 'quick' else [0, 1, 2, 3, 4, 5, 6, 7]
+    std = [{'tex': XPROC_STANDARD_TEX, 'split': 1, 'template': t, 'bad': DEFAULT_BAD, 'sub': '-', 'renderer': 'XHTML', 'theme': 'default',
+            'expected': None} for t in XPROC_TEMPLATES]
+    extras = std + extras
+    outs = run_workers(extras, seeds)
+    viol = []
+    for i, e in enumerate(extras):
+        msg = xproc_compare(e, [o[i] for o in outs], seeds)
+        if msg:
+            x = dict(e, xproc=seeds)
+            viol.append(Violation('doc13: ' + msg, {'kind': 'failing-input', 'extra': x, 'observed': msg}))
+            if len(viol) >= 3:
+                break
+    return viol, len(extras) * len(seeds)
 
 
 def shrink_doc(extra):
@@ -860,8 +980,22 @@ def shrink_doc(extra):
 
 def extra_checks(ctx):
     n = 110 if ctx.tier == 'quick' else 1200
-    return doc_checks(ctx, ctx.rng, n, with_corpus=True)
+    collected = []
+    viol, stats = doc_checks(ctx, ctx.rng, n, with_corpus=True, collect=collected)
+    if not viol:
+        # the same on every run: a sample of the documents again, in fresh interpreter processes with different hash seeds
+        k = 24 if ctx.tier == 'quick' else 160
+        sample = [e for e in collected if len(e['expected']) >= 2][:k]
+        v2, evals = xproc_checks(ctx, sample)
+        stats['evaluations'] += evals
+        stats['separate_process_runs'] = evals
+        viol += v2
+    return viol, stats
 
 
 def replay_extra(ctx, extra):
+    if extra.get('xproc'):
+        seeds = list(extra['xproc'])
+        outs = run_workers([extra], seeds)
+        return bool(xproc_compare(extra, [o[0] for o in outs], seeds))
     return bool(check_doc(extra))
